@@ -50,6 +50,7 @@ MAP_INTO_PV = (r'\.map\(Into::into\)', '.map(|v: Value| -> (r: PartialValue) ens
 ITEMS = [
     Raw(file='../_eval/base.rs', tag='prelude'),
     Raw(file='prelude.rs', tag='prelude'),
+    Raw(file='ctors.rs', tag='prelude'),
     Type(TYPES, 'enum Type'),
     Type(LIT, 'enum Literal'),
     Type(VALUE, 'enum ValueKind'),
